@@ -417,6 +417,11 @@ class Verifier:
     def check_frame(self, eng, c, names, old, modifies, kind):
         if '*' in modifies:
             return
+        # the locals of a generator are private to the process instance: not part of the frame
+        priv = set((c.locals_types or {}).keys()) | {'_ytime', '_ydelay'}
+        if priv & set(names):
+            names = {k: v for k, v in names.items() if k not in priv}
+            old = SV(eng, old._s, {k: v for k, v in old._names.items() if k not in priv})
         st = eng.st
         q = c.qual
         new_leaves, new_ids = walk_leaves(names)
